@@ -205,7 +205,10 @@ class Ctx:
                     # name the function (and its assumed postcondition) the attribute is attached to
                     nxt = ' '.join(x.strip() for x in tlines[ln + 1:ln + 4])
                     mm = re.search(r'((?:pub\s+)?(?:const\s+|proof\s+)?fn\s+\w+[^{]*)', nxt)
-                    line = 'external_body (assumed contract): ' + (mm.group(1).strip() if mm else nxt)[:220]
+                    prev = tlines[ln - 1].strip() if ln > 0 else ''
+                    pm = re.match(r'// contract proved on the real text in unit (.+)$', prev)
+                    kind = ('leaf, contract proved on the real text in unit %s' % pm.group(1)) if pm else 'external_body (assumed contract)'
+                    line = kind + ': ' + (mm.group(1).strip() if mm else nxt)[:220]
                 self.assumptions.append('verus unit %s: %s' % (unit.name, line[:260]))
         self.assumptions = sorted(set(self.assumptions))
         # witnesses for failures
